@@ -8,10 +8,11 @@ PROP = {'rule': 'rapid-generated cases, one unit per package. '
          'nulls, odd cpu lists, byte corruption); non-trivial = accepted text with nested structure. '
          'numa / device / reservation / quota: rapid state machines. Every schedule step runs the real plugin path (PreFilter, '
          'Filter with the real NUMA topology manager, Reserve, then PreBind / PreBindReservation on a copy, or Unreserve on a drawn '
-         'bind failure) for pods and for Reservation objects; other steps are delete (plain or tombstone), finish (phase '
-         'Succeeded/Failed, object stays), touch (update carrying the same allocation), optional delivery of the own bind event to '
-         'the live handlers. After EVERY step (each prefix is a crash point) the persisted objects are replayed into a fresh '
-         'cache through the real informer handlers in a drawn order with up to 3 duplicate adds / no-op updates, and, in 1/7 of the '
+         'bind failure) for pods and for Reservation objects; other steps are delete (plain or tombstone), finish (a pod that '
+         'turns Succeeded/Failed is delivered as a delete and disappears, as the phase-filtered pod informer of the scheduler does; '
+         'a Reservation that turns Succeeded/Failed stays and is delivered with its terminal phase), touch (update carrying the '
+         'same allocation), optional delivery of the own bind event to the live handlers. After EVERY step (each prefix is a crash point) the persisted objects are replayed into a fresh '
+         'cache through the real informer handlers in a drawn order with up to 3 duplicate adds / no-op updates, and, in 1/10 of the '
          'cases, with pod events before the node topology / Reservation events; the fresh ledger must equal the live one and the '
          'harness model of what Reserve handed to the still-active objects. non-trivial = a crash point with >=2 holders (sharing '
          'a device / reservation / quota for device, reservation, quota) and at least one duplicate event. '
@@ -20,6 +21,9 @@ PROP = {'rule': 'rapid-generated cases, one unit per package. '
  'assumptions': ['strings carried in annotations (device ids, bus ids, reservation names/uids) are valid UTF-8, as everything that '
                  'came through the API server is',
                  'CPU ids are below 4096 (cpuset.Parse rejects ranges ending above that)',
+                 "the scheduler's pod informer never delivers a pod in phase Succeeded/Failed (field selector of "
+                 'scheduler.NewInformerFactory): such pods reach the handlers as deletes and are invisible after a restart; the '
+                 "handlers' IsPodTerminated branches are therefore not exercised",
                  'crash points are between scheduling cycles: a pod that is reserved but not yet bound is not in flight when the '
                  'scheduler restarts (its assumption is by design not persisted)',
                  'the fresh scheduler is given the same node inventory as the live one (topology report, Device object, quota '
